@@ -522,3 +522,6 @@ Section Dispatch.
       end
     end.
 End Dispatch.
+
+(* one particular precedence: the first matching route in registration order *)
+Definition first_pick : list bstr -> list route -> option route := fun _ cs => hd_error cs.
